@@ -119,12 +119,20 @@ def gen_case(r, kind, nmax, ctx):
         return f"con {alg} {side} {k} {m} {n} {flat([ref])} {flat(P)}".rstrip()
     if kind == "ssp":
         w = r.choice([3, 4, 6, 9])
-        n = r.range(1, 10)
-        P = gen_points(r, 2, n, w, base, r.choice(["mix", "front", "dup"]))
+        if r.chance(1, 6):
+            # more than 16 points (std::sort leaves its insertion-sort regime): pairwise distinct first
+            # coordinates, see finding C13-SSP-LEXLESS for equal ones
+            n = r.range(17, 40 if nmax <= 40 else 120)
+            xs = list(range(base, base + 2 * n)); xs = [xs.pop(r.below(len(xs))) for _ in range(n)]
+            mode = r.choice(["front", "rand"])
+            P = [[x, (base + 2 * n - (x - base) + r.range(-2, 2)) if mode == "front" else base + r.below(2 * n)] for x in xs]
+        else:
+            n = r.range(1, 16)
+            P = gen_points(r, 2, n, w, base, r.choice(["mix", "front", "dup"]))
         ref = gen_ref(r, P, 2, base, w)
         nd = len({tuple(p) for p in nondominated(P)})
         k = r.range(1, nd)
-        ctx.hist("ssp_n", n); ctx.hist("ssp_k", k); ctx.hist("ssp_has_equal_x", len({p[0] for p in P}) < n)
+        ctx.hist("ssp_n", n if n <= 16 else ">16"); ctx.hist("ssp_k", min(k, 10)); ctx.hist("ssp_has_equal_x", len({p[0] for p in P}) < n)
         return f"ssp {k} {n} {flat([ref])} {flat(P)}"
     raise ValueError(kind)
 
